@@ -51,3 +51,9 @@ Example C13_nonvacuous :
   filter (fun l => match l with LPersistErr _ | LEnter _ _ _ => true | _ => false end) ls =
     [LPersistErr 0; LEnter 0 0 CtxBg; LPersistErr 1; LEnter 1 0 CtxBg; LEnter 2 0 CtxBg; LPersistErr 3; LEnter 3 0 CtxBg; LEnter 4 0 CtxBg].
 Proof. vm_compute. auto. Qed.
+
+(* over EVERY schedule of every program and every pattern of persistence failures: what is in the log stays in the
+   log, in place - the log at any later point is the earlier log with records added at its end *)
+Theorem C13_log_only_grows : forall P cfg sched s, exists ext, store_log (fst (run P cfg s sched)) = store_log s ++ ext.
+Proof. exact log_only_grows. Qed.
+Print Assumptions C13_log_only_grows.
